@@ -696,3 +696,12 @@ Proof.
     destruct (is_letter letter) eqn:El; [|reflexivity]. exfalso. apply (Ht letter El). reflexivity.
   - destruct (N.eqb_spec q 34) as [->|]; [|rewrite andb_false_r; reflexivity]. exfalso. apply Hq. right. right. left. reflexivity.
 Qed.
+
+(* every escape spelling of the tag values is covered: mem_ok (MTag t) is tag_ok t, stated over the semantic relation escd *)
+From Pocket Require Import Spelling.
+Lemma tag_ok_any_spelling L cpss pss : is_letter L = true -> Forall2 spelling cpss pss ->
+  tag_ok (L, (map utf8_of cpss, map (@concat N) pss)).
+Proof.
+  intros HL H. split; [exact HL|]. cbn [fst snd].
+  induction H as [|cps ps r1 r2 Hs _ IH]; cbn [map]; constructor; [apply spelling_escd; exact Hs|exact IH].
+Qed.
